@@ -926,7 +926,7 @@ fn main() -> std::process::ExitCode {
         "C09",
         "CFG skeletons from gen_fn (1-12 blocks of 0-4 nops, 0-3 out-edges, optional unreachable blocks, entry/exit sometimes moved) x {gen/kill bit-set, constant map, saturating counter, locations-seen} with per-location parameters hashed from a seed, monotone or non-monotone x forward/backward x force x step budget {default,0,1,need-2,need-1,need}; falcon's result is compared with a reference chaotic iteration over an independently built location graph (two visiting orders) and the equations are re-checked on the returned map; non-trivial = the reachable location graph has a cycle and the answer differs from one breadth-first pass (or the ordering error was raised); distinct = (set of skeleton classes, analysis kind, monotone, direction, force, budget class)",
         Box::new(|_t: Tier| from_tape(800, decode)),
-        |t| t.pick(500_000, 15_000_000),
+        |t| t.pick(2_000_000, 40_000_000),
         check,
     );
     spec.render = render;
